@@ -58,6 +58,7 @@ def run(ctx):
   sharded_update_layout(ctx)
   sharded_record_conversion(ctx)
   sketchy_buffer_widths(ctx)
+  sketchy_update_shapes(ctx)
   from . import C13
   C13.slice_back(ctx)
   C13.parallel_lists(ctx)           # the stale carry of the refresh cond has the taken arm's tree (lengths in the LEN domain)                # stored preconditioners keep their announced shapes
@@ -146,6 +147,87 @@ def sketchy_buffer_widths(ctx):
     ctx.ob('C07.R2', fi0.short, f'ekfac SVD buffers sized from the same sketch rank {tag}', okm,
            f'svd_result_u / svd_result_s must be (d, m) / (m,) with m = min(d, k + other dims) for the SAME k as eigvecs (d, k) = '
            f'`{show(k_t, maxdepth=4)[:100]}`; got m = `{show(m_t, maxdepth=5)[:160]}`', ctx.loc(fi0), sample='m = min(d, k + prod(other dims))')
+
+
+def sketchy_update_shapes(ctx):
+  """R2h (SHAPE domain): every leaf of the per-axis Sketchy state keeps its shape through `_update_axis`.  With the
+  buffers declared by init - eigvecs (d, k), eigvals / inv_eigvals (k,), scalars, ema_ggt (d, d), ekfac factors
+  (d, m) / (m,) with m = min(d, k + r), r the product of the other dimensions - the shapes of the values the update
+  stores are inferred symbolically (unfolding (d, r); concatenation (d, k + r); QR in mode 'r' and the thin SVD introduce
+  min(.,.)) and must equal the declared ones.  A buffer declared with another width changes shape on the first update and
+  breaks scan / checkpoint restore without any error in eager mode."""
+  import sympy as sp
+  from ..shape import Shapes, ShapeError, same
+  from .C09 import strip_nan_guard
+  m = ctx.model
+  fi = m.func('tearfree.sketchy', '_update_axis')
+  ctx.analysed(fi)
+  D, Rk, R = sp.symbols('D Rk R', positive=True, integer=True)
+  K = sp.Min(D, Rk)
+  M = sp.Min(D, K + R)
+  slot_names = ['eigvecs', 'eigvals', 'inv_eigvals', 'tail', 'inv_tail', 'ema_ggt', 'svd_result_u', 'svd_result_s', 'inv_prev_tail']
+  declared = {'eigvecs': (D, K), 'eigvals': (K,), 'inv_eigvals': (K,), 'tail': (), 'inv_tail': (), 'ema_ggt': (D, D),
+              'svd_result_u': (D, M), 'svd_result_s': (M,), 'inv_prev_tail': ()}
+  for ekfac, add_ggt in itertools.product([True, False], repeat=2):
+    truth = {'options.ekfac_svd': ekfac, 'options.linear_approx_tail': False, 'options.add_ggt': add_ggt, 'memory_alloc': False,
+             'options.memory_alloc': False, 'options.relative_epsilon': True}
+
+    def extra(c):
+      if c.op == 'cmp' and c.args[0] in ('<', '<=', '>', '>='):
+        is_len = lambda t_: t_.op == 'call' and t_.args[0].op == 'builtin' and t_.args[0].args[0] == 'len'
+        if is_len(c.args[2]) and not is_len(c.args[1]):
+          return c.args[0] in ('<', '<=')
+        if is_len(c.args[1]) and not is_len(c.args[2]):
+          return c.args[0] in ('>', '>=')
+      return None
+    ev = evaluator(m, decide=Decider(truth=truth, cmps={('options.epsilon', '>', 0): True}, extra=extra))
+    ax = T('rec', m.cls('tearfree.sketchy', '_AxisState').fq, tuple((n, sym('slot', n)) for n in slot_names))
+    U = sym('param', fi.short, 'update')
+    r = ev.run(fi, args={'axis_state': ax, 'update_sketches': const(True)})
+    ctx.evaluations += 1
+    if r.op == 'cond':
+      r = r.args[1]
+    rf = rec_fields(strip_nan_guard(r))
+    if rf is None:
+      raise AnalysisError('_update_axis does not return an _AxisState record')
+    d_t = spec_term(ev, 'update.shape[dim]', {'update': U, 'dim': sym('param', fi.short, 'dim')})
+    caps = [v_ for v_ in ev.last_scope.vars.values() if v_.op == 'call' and v_.args[0].op == 'builtin' and v_.args[0].args[0] == 'min' and
+            any(a_ is d_t for a_ in v_.args[1])]
+    if not caps:
+      raise AnalysisError('_update_axis: sketch size min(axis dimension, rank) not found')
+    k_t = caps[0]
+
+    def leaf(t):
+      if t.op == 'sym' and t.args[0] == 'slot':
+        return declared[t.args[1]]
+      mn = method_name(t)
+      shp = base = None
+      if mn == 'reshape':
+        a_ = t.args[1]
+        shp = a_[0] if len(a_) == 1 and a_[0].op in ('tuple', 'list') else T('tuple', *a_)
+        base = t.args[0].args[0]
+      elif is_ext_call(t, 'jax.numpy.reshape') and len(t.args[1]) == 2:
+        shp, base = t.args[1][1], t.args[1][0]
+      if shp is not None and shp.op in ('tuple', 'list') and len(shp.args) == 2 and shp.args[0] is d_t and is_const(shp.args[1], -1) and \
+          any(x is U for x in walk(base)):
+        return (D, R)                       # the gradient unfolded along `dim` (checked by C09.R4)
+      if t.op == 'attr' and t.args[0].op == 'sym' and t.args[0].args[-1] == 'options':
+        return ()
+      return None
+    sh = Shapes(leaf, lambda t: D if t is d_t else (K if t is k_t else None))
+    tag = f'[ekfac={int(ekfac)},add_ggt={int(add_ggt)}]'
+    for n in slot_names:
+      v = rf[n]
+      if v.op == 'ext' or (v.op == 'call' and 'MaskedNode' in show(v, maxdepth=2)) or (v.op == 'sym' and v.args[0] == 'slot'):
+        continue                       # an absent buffer / a slot passed through
+      try:
+        got = sh.of(v)
+      except ShapeError as e:
+        ctx.defer(f'_update_axis: SHAPE domain cannot infer the shape stored in `{n}` {tag}: {e}')
+        continue
+      ctx.ob('C07.R2', fi.short, f'`{n}` keeps its declared shape {tag}', same(got, declared[n]),
+             f'the update stores a value of shape {got} in `{n}`, init declares {declared[n]} (D axis length, Rk configured rank, R product of the other '
+             'dims): the state changes shape on the first update', ctx.loc(fi), sample=f'{n}: {declared[n]}')
 
 
 def sharded_update_layout(ctx):
